@@ -247,6 +247,20 @@ def run(tier, seed, cache=None, corrupt=False):
     }
     if corrupted:
         coverage['corrupted_case'] = corrupted
+    # the entry-point signature rules (EntrySig.tla) - enforced by the code generator, so judged on the whole compiler
+    from hv import entry_sig
+    es = entry_sig.run(tier, seed)
+    egroups = {}
+    for v in es['violations']:
+        egroups.setdefault((v['kind'], v['rule']), []).append(v)
+    for (kind, rule), vs in sorted(egroups.items()):
+        vs.sort(key=lambda v: len(v['source']))
+        violations.append(common.Violation(PROP, 'entry point: %s [%s] e.g. %s' % (kind, rule, vs[0]['source'].strip()[:120]),
+                                           {'rule': rule, 'kind': kind}, {'cases_in_group': len(vs), 'program': vs[0]['source'],
+                                                                          'want': vs[0]['want'], 'observed': vs[0]['got']}))
+    coverage['entry_signatures'] = {k: es[k] for k in ('cases', 'accepted', 'rejected', 'dontcare', 'states', 'rules')}
+    coverage['states'] += es['states']
+    coverage['traces_validated_against_impl'] += es['cases']
     return common.finish(PROP, tier, seed, 'model_checking', coverage, violations, t0, ASSUMPTIONS)
 
 
@@ -259,6 +273,23 @@ def replay(path):
     """Re-run the stored case: TLC re-enumerates its family, the case with the stored id is rendered and run."""
     with open(path) as f:
         rec = json.load(f)
+    if 'case' not in rec['detail']:          # an entry-point signature (EntrySig.tla): compile the stored program again
+        from hv import hidc_api
+        src, want = rec['detail']['program'], rec['detail']['want']
+        print(src)
+        try:
+            hidc_api.compile_src(src)
+            got = 'accept'
+        except hidc_api.Rejected as e:
+            got = 'reject'
+        except hidc_api.Crashed as e:
+            got = 'crash'
+        print('documented verdict %s; observed %s' % (want, got))
+        if got != want and want in ('accept', 'reject'):
+            print('VIOLATION property=%s replay=%s  # %s' % (PROP, path, rec['classifier'].get('kind')))
+            return 1
+        print('OK property=%s replayed case agrees' % PROP)
+        return 0
     case = rec['detail']['case']
     cases = []
     for tier in dict.fromkeys(('quick', rec['detail'].get('tier', 'quick'))):     # the quick universe is a subset
